@@ -381,7 +381,12 @@ func r094(c *Ctx) {
 			}
 		}
 		// ... and an empty rotation yields no target: the value is nil on the len(lb.healthy)==0 way
-		for _, vc := range valueCases(recv, cs.instr.Block()) {
+		// (all the values the variable is given, where it is given them: at the claim itself the nil one is already excluded)
+		at := cs.instr.Block()
+		if def, ok := resolve(recv).(ssa.Instruction); ok && def.Block() != nil {
+			at = def.Block()
+		}
+		for _, vc := range valueCases(recv, at) {
 			if !isNilConst(vc.val) {
 				continue
 			}
